@@ -268,7 +268,7 @@ pub fn property() -> Property {
     Property {
         id: "C05",
         title: "AEAD additional data is exactly RFC 8152 Enc_structure",
-        rule: "five contexts x three carriers (COSE_Encrypt, COSE_Encrypt0, COSE_recipient with every context incl. the non-recipient ones) x protected header [decoded from styled wire bytes | built empty | built non-empty] x external AAD on the length-class lattice; \
+        rule: "five contexts x three carriers (COSE_Encrypt, COSE_Encrypt0, COSE_recipient with every context incl. the non-recipient ones) x protected header [decoded from styled wire bytes | built empty | built non-empty] x external AAD on the length-class lattice (rarely 2^20..2^25 bytes; one in ten shaped like an Enc_/MAC_/Sig_structure naming a context and the same protected bytes); whole carriers decoded from styled wire bytes, and messages with one planted fault that the decoder nevertheless accepts; \
                reached through enc_structure_data and the closures of create_ciphertext / try_create_ciphertext / decrypt; byte equality with an independent deterministic encoder; pairwise separation of the five contexts; \
                refusals (non-recipient context, missing ciphertext) must panic without calling the cipher; plaintext in, ciphertext stored; every case is non-trivial; distinct by tuple",
         assumptions: &["reference: own deterministic encoder of the RFC 8152 §5.3 array with the five context strings written in the harness"],
